@@ -124,7 +124,7 @@ func BuildScaled(fam, unit string, size, n int, tiff []byte) ([]byte, string) {
 		out = append(out, Box("mdat", make([]byte, 64))...)
 		return out, "cr3"
 	// ---- TIFF ----
-	case "tiff/entry", "tiff/ifdChain", "tiff/oolValue", "tiff/asciiValue":
+	case "tiff/entry", "tiff/ifdChain", "tiff/oolValue", "tiff/asciiValue", "tiff/subIfd", "tiff/longArray", "tiff/byteArray":
 		le := binary.LittleEndian
 		out := []byte("II*\x00\x08\x00\x00\x00")
 		ent := func(id, typ uint16, cnt, val uint32) []byte {
@@ -174,6 +174,63 @@ func BuildScaled(fam, unit string, size, n int, tiff []byte) ([]byte, string) {
 				}
 				out = append(out, u32l(next)...)
 			}
+		case "subIfd":
+			// IFD0: SubIFDs (LONG[n], out of line) -> n directories of one entry each
+			cnt := n
+			arr := 8 + 2 + 12 + 4
+			dirs := arr + 4*cnt
+			out = append(out, u16l(1)...)
+			if cnt == 1 {
+				out = append(out, ent(0x014a, 4, 1, uint32(dirs))...)
+			} else {
+				out = append(out, ent(0x014a, 4, uint32(cnt), uint32(arr))...)
+			}
+			out = append(out, u32l(0)...)
+			for i := 0; i < cnt; i++ {
+				out = append(out, u32l(dirs+18*i)...)
+			}
+			for i := 0; i < cnt; i++ {
+				out = append(out, u16l(1)...)
+				out = append(out, ent(0x0100, 3, 1, 640)...)
+				out = append(out, u32l(0)...)
+			}
+		case "longArray":
+			// StripOffsets LONG[n], StripByteCounts LONG[n] in IFD0; ISOSpeedRatings SHORT[n] in the Exif directory
+			cnt := n
+			if cnt < 2 {
+				cnt = 2
+			}
+			a1 := 8 + 2 + 36 + 4
+			a2 := a1 + 4*cnt
+			exif := a2 + 4*cnt
+			iso := exif + 2 + 12 + 4
+			out = append(out, u16l(3)...)
+			out = append(out, ent(0x0111, 4, uint32(cnt), uint32(a1))...)
+			out = append(out, ent(0x0117, 4, uint32(cnt), uint32(a2))...)
+			out = append(out, ent(0x8769, 4, 1, uint32(exif))...)
+			out = append(out, u32l(0)...)
+			for i := 0; i < 2*cnt; i++ {
+				out = append(out, u32l(1000+i)...)
+			}
+			out = append(out, u16l(1)...)
+			out = append(out, ent(0x8827, 3, uint32(cnt), uint32(iso))...)
+			out = append(out, u32l(0)...)
+			for i := 0; i < cnt; i++ {
+				out = append(out, u16l(100+i%3000)...)
+			}
+		case "byteArray":
+			// Exif directory: MakerNote and UserComment, UNDEFINED[n*16]
+			cnt := n * 16
+			exif := 8 + 2 + 12 + 4
+			mn := exif + 2 + 24 + 4
+			out = append(out, u16l(1)...)
+			out = append(out, ent(0x8769, 4, 1, uint32(exif))...)
+			out = append(out, u32l(0)...)
+			out = append(out, u16l(2)...)
+			out = append(out, ent(0x927c, 7, uint32(cnt), uint32(mn))...)
+			out = append(out, ent(0x9286, 7, uint32(cnt), uint32(mn+cnt))...)
+			out = append(out, u32l(0)...)
+			out = append(out, bytes.Repeat([]byte{0x41}, 2*cnt)...)
 		case "asciiValue":
 			out = append(out, u16l(2)...)
 			out = append(out, ent(0x010f, 2, uint32(L), 8+2+24+4)...)
